@@ -819,3 +819,258 @@ pub fn run_matrix(rep: &mut crate::report::Report, scenarios: &[Sc], fail_commit
         rep.count(&format!("outcome.{k}"), n);
     }
 }
+
+// ------------------------------------------------------------------ serial random histories
+//
+// One session is active at a time (transactions never overlap), so none of the isolation
+// defects can interfere; what is exercised is the *composition* of many writes on the same
+// entities, in auto-commit and inside transactions, with every read path after every step.
+// Rollback is modelled by the open finding C02-R1 (only entities created by the transaction
+// are undone) when that finding is open, by the specification otherwise.
+
+#[derive(Clone, Debug)]
+pub enum PW {
+    Insert { uid: u64, v: i64 },
+    SetV { uid: u64, v: i64 },
+    RemoveV { uid: u64 },
+    AddLabel { uid: u64, l: &'static str },
+    RemoveLabel { uid: u64, l: &'static str },
+    DeleteIsolated { uid: u64 },
+    DetachDelete { uid: u64 },
+    CreateEdge { euid: u64, a: u64, b: u64 },
+    Merge { uid: u64 },
+    SparqlInsert { s: u64 },
+    SparqlDelete { s: u64 },
+}
+
+impl PW {
+    pub fn text(&self) -> String {
+        match self {
+            PW::Insert { uid, v } => format!("INSERT (:P {{uid: {uid}, v: {v}, iv: {v}}})"),
+            PW::SetV { uid, v } => format!("MATCH (n:P {{uid: {uid}}}) SET n.v = {v}"),
+            PW::RemoveV { uid } => format!("MATCH (n:P {{uid: {uid}}}) REMOVE n.v"),
+            PW::AddLabel { uid, l } => format!("MATCH (n:P {{uid: {uid}}}) SET n:{l}"),
+            PW::RemoveLabel { uid, l } => format!("MATCH (n:P {{uid: {uid}}}) REMOVE n:{l}"),
+            PW::DeleteIsolated { uid } => format!("MATCH (n:P {{uid: {uid}}}) DELETE n"),
+            PW::DetachDelete { uid } => format!("MATCH (n:P {{uid: {uid}}}) DETACH DELETE n"),
+            PW::CreateEdge { euid, a, b } => format!("MATCH (a:P {{uid: {a}}}), (b:P {{uid: {b}}}) CREATE (a)-[:R {{uid: {euid}}}]->(b)"),
+            PW::Merge { uid } => format!("MERGE (n:P {{uid: {uid}}})"),
+            PW::SparqlInsert { s } => format!("INSERT DATA {{ <http://x{s}> <http://p> <http://o> }}"),
+            PW::SparqlDelete { s } => format!("DELETE DATA {{ <http://x{s}> <http://p> <http://o> }}"),
+        }
+    }
+    pub fn run(&self, s: &Session) -> Result<(), String> {
+        let r = catch(|| match self {
+            PW::SparqlInsert { .. } | PW::SparqlDelete { .. } => s.execute_sparql(&self.text()).map(|_| ()),
+            _ => s.execute(&self.text()).map(|_| ()),
+        });
+        match r {
+            Ok(Ok(())) => Ok(()),
+            Ok(Err(e)) => Err(e.to_string()),
+            Err(p) => Err(format!("PANIC {}", p.site)),
+        }
+    }
+    /// returns the uids of nodes / edge-uids this write created (for the rollback rule)
+    pub fn apply_model(&self, m: &mut Model, t: &mut BTreeSet<(String, String, String)>) -> (Vec<u64>, Vec<u64>) {
+        match self {
+            PW::Insert { uid, v } => {
+                m.add_node(*uid, &["P"], &[("uid", i(*uid as i64)), ("v", i(*v)), ("iv", i(*v))]);
+                return (vec![*uid], vec![]);
+            }
+            PW::SetV { uid, v } => {
+                if let Some(n) = m.nodes.get_mut(uid) {
+                    n.props.insert("v".into(), i(*v));
+                }
+            }
+            PW::RemoveV { uid } => {
+                if let Some(n) = m.nodes.get_mut(uid) {
+                    n.props.remove("v");
+                }
+            }
+            PW::AddLabel { uid, l } => {
+                if let Some(n) = m.nodes.get_mut(uid) {
+                    n.labels.insert((*l).to_string());
+                }
+            }
+            PW::RemoveLabel { uid, l } => {
+                if let Some(n) = m.nodes.get_mut(uid) {
+                    n.labels.remove(*l);
+                }
+            }
+            PW::DeleteIsolated { uid } | PW::DetachDelete { uid } => {
+                m.del_node(*uid, true);
+            }
+            PW::CreateEdge { euid, a, b } => {
+                if m.nodes.contains_key(a) && m.nodes.contains_key(b) {
+                    m.add_edge(*euid, *a, *b, "R", &[("uid", i(*euid as i64))]);
+                    return (vec![], vec![*euid]);
+                }
+            }
+            PW::Merge { uid } => {
+                if !m.nodes.values().any(|n| n.labels.contains("P") && n.props.get("uid") == Some(&i(*uid as i64))) {
+                    m.add_node(*uid, &["P"], &[("uid", i(*uid as i64))]);
+                    // MERGE writes outside the transaction (finding C02-R1): not listed as created
+                }
+            }
+            PW::SparqlInsert { s } => {
+                t.insert((format!("http://x{s}"), "http://p".into(), "http://o".into()));
+            }
+            PW::SparqlDelete { s } => {
+                t.remove(&(format!("http://x{s}"), "http://p".to_string(), "http://o".to_string()));
+            }
+        }
+        (vec![], vec![])
+    }
+}
+
+/// Read paths usable on arbitrary graphs (no dependence on engine ids of query-created entities).
+pub const SERIAL_READS: &[R] = &[
+    R::LabelScan, R::FullScan, R::LabelScanProps, R::Filter, R::LabelQ, R::ExpandUntyped, R::ExpandTyped, R::ExpandIn,
+    R::TwoHop, R::VarLen, R::Count, R::EdgeProps, R::IndexEqOld, R::CypherLabel, R::GremlinLabel, R::GremlinOut,
+    R::GraphqlLabel, R::Sparql, R::ApiGetNode, R::ApiGetProp, R::ApiBatch,
+];
+
+pub fn serial_history(rep: &mut crate::report::Report, seed: u64, case: u64, rollback_rule: bool) {
+    use serde_json::json;
+    let mut r = crate::rng::Rng::new(seed, "C01.serial", case);
+    let regime = if r.chance(0.5) { Regime::Fresh } else { Regime::AfterCommit };
+    let fx = fixture(regime);
+    let mut m = fx.s0.clone();
+    let mut t = fx.triples0.clone();
+    let mut hist: Vec<String> = vec![format!("regime={}", regime.name())];
+    let mut next_uid = 500u64;
+    let mut sess = fx.db.session();
+    let mut in_tx = false;
+    // state at begin + entities created inside the transaction (for rollback)
+    let mut snap: Option<(Model, BTreeSet<(String, String, String)>)> = None;
+    let mut created: (Vec<u64>, Vec<u64>) = (vec![], vec![]);
+    let mut sparql_written_in_tx = false;
+    let mut kinds: BTreeSet<&'static str> = BTreeSet::new();
+    let steps = 8 + r.below(30);
+    let known_nodes: Vec<u64> = fx.node_id.keys().copied().collect();
+    let known_edges: Vec<u64> = fx.edge_id.keys().copied().collect();
+    for _step in 0..steps {
+        let uids: Vec<u64> = m.nodes.iter().filter(|(_, n)| n.labels.contains("P")).map(|(u, _)| *u).collect();
+        let roll = r.below(100);
+        if roll < 8 && !in_tx {
+            if r.chance(0.5) {
+                sess = fx.db.session();
+            }
+            if sess.begin_tx().is_ok() {
+                in_tx = true;
+                snap = Some((m.clone(), t.clone()));
+                created = (vec![], vec![]);
+                sparql_written_in_tx = false;
+                hist.push("begin".into());
+            }
+            continue;
+        }
+        if roll < 16 && in_tx {
+            if r.chance(0.7) {
+                let _ = sess.commit();
+                hist.push("commit".into());
+            } else {
+                let _ = sess.rollback();
+                hist.push("rollback".into());
+                let (m0, t0) = snap.take().unwrap();
+                if rollback_rule {
+                    // C02-R1: only entities created by the transaction are undone (and the RDF buffer)
+                    for e in &created.1 {
+                        m.del_edge(*e);
+                    }
+                    for n in &created.0 {
+                        m.del_node(*n, false);
+                    }
+                    t = t0;
+                } else {
+                    m = m0;
+                    t = t0;
+                }
+            }
+            in_tx = false;
+            snap = None;
+        } else {
+            let pick_uid = |r: &mut crate::rng::Rng| if uids.is_empty() { 1 } else { *r.pick(&uids) };
+            let w = match r.below(12) {
+                0 | 1 => {
+                    next_uid += 1;
+                    PW::Insert { uid: next_uid, v: r.range(0, 40) }
+                }
+                2 | 3 => PW::SetV { uid: pick_uid(&mut r), v: r.range(0, 40) },
+                4 => PW::RemoveV { uid: pick_uid(&mut r) },
+                5 => PW::AddLabel { uid: pick_uid(&mut r), l: *r.pick(&["Q", "X"]) },
+                6 => PW::RemoveLabel { uid: pick_uid(&mut r), l: *r.pick(&["Q", "X"]) },
+                7 => {
+                    let u = pick_uid(&mut r);
+                    if m.out_edges(u).is_empty() && m.in_edges(u).is_empty() { PW::DeleteIsolated { uid: u } } else { PW::DetachDelete { uid: u } }
+                }
+                8 | 9 => {
+                    next_uid += 1;
+                    PW::CreateEdge { euid: next_uid, a: pick_uid(&mut r), b: pick_uid(&mut r) }
+                }
+                10 => {
+                    next_uid += 1;
+                    PW::Merge { uid: if r.chance(0.5) { pick_uid(&mut r) } else { next_uid } }
+                }
+                _ => {
+                    if r.chance(0.6) { PW::SparqlInsert { s: r.below(4) as u64 } } else { PW::SparqlDelete { s: r.below(4) as u64 } }
+                }
+            };
+            kinds.insert(match &w {
+                PW::Insert { .. } => "insert",
+                PW::SetV { .. } => "set",
+                PW::RemoveV { .. } => "remove_prop",
+                PW::AddLabel { .. } => "add_label",
+                PW::RemoveLabel { .. } => "remove_label",
+                PW::DeleteIsolated { .. } => "delete",
+                PW::DetachDelete { .. } => "detach_delete",
+                PW::CreateEdge { .. } => "create_edge",
+                PW::Merge { .. } => "merge",
+                PW::SparqlInsert { .. } | PW::SparqlDelete { .. } => "sparql",
+            });
+            hist.push(format!("{}{}", if in_tx { "  " } else { "" }, w.text()));
+            match w.run(&sess) {
+                Ok(()) => {
+                    let (cn, ce) = w.apply_model(&mut m, &mut t);
+                    if in_tx {
+                        created.0.extend(cn);
+                        created.1.extend(ce);
+                        if matches!(w, PW::SparqlInsert { .. } | PW::SparqlDelete { .. }) {
+                            sparql_written_in_tx = true;
+                        }
+                    }
+                }
+                Err(e) => {
+                    let kind = if e.starts_with("PANIC") { e.clone() } else { "error".to_string() };
+                    rep.deviation(&format!("serial:write_failed|{}|{kind}", w.text().split(' ').next().unwrap_or("")), json!({"error": e, "history": hist}));
+                    return;
+                }
+            }
+        }
+        // every read path after every step (reader = the active session)
+        rep.eval();
+        for rd in SERIAL_READS {
+            if in_tx && sparql_written_in_tx && *rd == R::Sparql {
+                continue; // C01-D7: own triple writes are not visible inside the transaction
+            }
+            let got = rd.run(&sess, &fx);
+            let exp = rd.model(&m, &t, &known_nodes, &known_edges);
+            if got != exp {
+                let kind = if got.starts_with("ERR:") { "error" } else if got.starts_with("PANIC:") { "panic" } else { "wrong_answer" };
+                let after = hist.last().map_or("", |h| h.trim().split(' ').next().unwrap_or(""));
+                let sig = if kind == "wrong_answer" { format!("serial:{}|{kind}|after:{after}", rd.name()) } else { format!("serial:{}|{kind}", rd.name()) };
+                rep.deviation(
+                    &sig,
+                    json!({"read": rd.name(), "expected": exp, "got": got, "in_tx": in_tx, "history": hist}),
+                );
+                return;
+            }
+        }
+    }
+    if kinds.len() >= 4 {
+        rep.nontrivial(hash_str(&hist.join(";")));
+    }
+    if case < 2 {
+        rep.sample(json!({"serial_history": hist}));
+    }
+}
